@@ -245,6 +245,8 @@ class World:
         self.fake.es_settings = list(bytes(86))
         self.protocols = []
         self._orig = None
+        self.lose = lambda cmd: False      # hook: True = this request gets no answer (MaxRetriesException)
+        self.on_answered = lambda cmd: None
 
     def answers(self, command):
         P = self.M.protocol
@@ -277,7 +279,12 @@ class World:
             if not world.answers(cmd):
                 world.fake.log.append(("unanswered", type(cmd).__name__))
                 raise world.M.exceptions.MaxRetriesException()
-            return await world.fake.handle(cmd)
+            if world.lose(cmd):
+                world.fake.log.append(("lost", type(cmd).__name__))
+                raise world.M.exceptions.MaxRetriesException()
+            r = await world.fake.handle(cmd)
+            world.on_answered(cmd)
+            return r
         PC.execute = execute
         return self
 
